@@ -4,6 +4,7 @@
 //!        vmon merge-distinct FILE...
 mod ast;
 mod genp;
+mod optyping;
 mod oracle;
 mod prog;
 mod props;
